@@ -240,7 +240,6 @@ func BuildLog(p *Params, part int32) ([]*simkafka.StoredBatch, []Want) {
 func buildTxnLog(p *Params) ([]*simkafka.StoredBatch, []Want) {
 	pids := map[byte]int64{'A': 100, 'B': 200}
 	var batches []*simkafka.StoredBatch
-	type pend struct{ idx []int }
 	var all []Want
 	visible := map[int]bool{}
 	open := map[byte][]int{}
@@ -276,16 +275,23 @@ func buildTxnLog(p *Params) ([]*simkafka.StoredBatch, []Want) {
 			off++
 		}
 	}
+	// last stable offset: first offset of the earliest transaction still open at the end of the log
+	lso := off
+	for _, idx := range open {
+		if len(idx) > 0 && all[idx[0]].Off < lso {
+			lso = all[idx[0]].Off
+		}
+	}
 	var want []Want
 	for i, w := range all {
 		if !p.RC {
 			want = append(want, w)
 			continue
 		}
-		if v, decided := visible[i]; decided && v {
+		// read-committed: nothing at or beyond the last stable offset, nothing aborted
+		if v, decided := visible[i]; decided && v && w.Off < lso {
 			want = append(want, w)
 		}
-		// records of still-open transactions are beyond the last stable offset: never delivered in RC
 	}
 	return batches, want
 }
@@ -304,6 +310,7 @@ type pcState struct {
 	got       []got
 	permits   chan struct{}
 	out       int // permits outstanding
+	offered   map[int64]bool
 	msgClosed bool
 	errClosed bool
 	errs      []string
@@ -315,6 +322,19 @@ type icpt struct {
 }
 
 func (i *icpt) OnConsume(m *sarama.ConsumerMessage) {
+	if i.idx < 0 {
+		// tracker: the feeder is about to offer this message on Messages(); the rig lets the
+		// application read only when something has been offered, so that a reader never waits on the
+		// channel while a stale expiry tick is buffered (both ready => Go picks at random)
+		i.r.mu.Lock()
+		st := i.r.pcs[m.Partition]
+		if st.offered == nil {
+			st.offered = map[int64]bool{}
+		}
+		st.offered[m.Offset] = true
+		i.r.mu.Unlock()
+		return
+	}
 	i.r.mu.Lock()
 	i.r.icptLog[fmt.Sprintf("%d/%d/%d", m.Partition, m.Offset, i.idx)]++
 	i.r.icptSeq = append(i.r.icptSeq, fmt.Sprintf("%d/%d/%d", m.Partition, m.Offset, i.idx))
@@ -389,6 +409,7 @@ func run(c *gx.Ctl, p *Params) *gx.Outcome {
 	if p.RC {
 		conf.Consumer.IsolationLevel = sarama.ReadCommitted
 	}
+	conf.Consumer.Interceptors = append(conf.Consumer.Interceptors, &icpt{r: r, idx: -1})
 	for i := 0; i < p.Icpt; i++ {
 		conf.Consumer.Interceptors = append(conf.Consumer.Interceptors, &icpt{r: r, idx: i})
 	}
@@ -602,7 +623,7 @@ func (r *rig) actors() []gx.Actor {
 		if len(st.got) < len(exp) {
 			allDone = false
 			anyUndelivered = true
-			if st.out == 0 {
+			if st.out == 0 && len(st.offered) > len(st.got) {
 				acts = append(acts, gx.Actor{Label: fmt.Sprintf("read:p%d", k), Rank: 2, Variants: []gx.Variant{{Do: func() {
 					r.mu.Lock()
 					st.out++
